@@ -37,7 +37,7 @@ pub fn c13(v: &View) -> Vec<Violation> {
     }
     let label_ok = |how: How, op: &str| match how {
         How::Tell | How::TellT(_) | How::TellC(_) => op == "tell",
-        How::Ask | How::AskT(_) | How::AskJoin | How::AskC(_) => op == "ask",
+        How::Ask | How::AskT(_) | How::AskJoin | How::AskC(_) | How::AskTL(..) => op == "ask",
         How::BTell(_) | How::DepTell(_) => op == "tell" || op == "blocking_tell",
         How::BAsk(_) | How::DepAsk(_) => op == "ask" || op == "blocking_ask",
     };
